@@ -2,7 +2,7 @@ package rules
 
 import (
 	"fmt"
-		"go/token"
+	"go/token"
 	"go/types"
 	"sort"
 	"strconv"
